@@ -310,7 +310,10 @@ class IndexPage(Page):
         for o in self.system.rootobjects:
             if not o.isVisible:
                 continue
-            r.append(tag.clone().fillSlots(root=tags.code(
+            entry = tag.clone()
+            if o.isPrivate:
+                entry(class_='private')
+            r.append(entry.fillSlots(root=tags.code(
                 linker.taglink(o, self.filename)
                 )))
         return r
